@@ -276,3 +276,393 @@ Proof.
   { eapply (fasta_scan_inv (Z.of_nat (length b) - 1)%Z); [exact Es | rewrite rev_length; reflexivity | lia | intros; discriminate | intros; discriminate | exact Ec]. }
   lia.
 Qed.
+
+(* ================================================================ round 2 ================================================================ *)
+(* ------------------------------------------------ proofs *)
+Lemma lastn_all : forall {A} n (l : list A), (length l <= n)%nat -> lastn n l = l.
+Proof. intros A n l H. unfold lastn. replace (length l - n)%nat with O by lia. reflexivity. Qed.
+
+Lemma lastn_app_ge : forall {A} n (a b : list A), (n <= length b)%nat -> lastn n (a ++ b) = lastn n b.
+Proof.
+  intros A n a b H. unfold lastn. rewrite app_length.
+  replace (length a + length b - n)%nat with (length a + (length b - n))%nat by lia.
+  rewrite skipn_app. rewrite skipn_all2 by lia. cbn.
+  replace (length a + (length b - n) - length a)%nat with (length b - n)%nat by lia. reflexivity.
+Qed.
+
+Lemma lastn_length : forall {A} n (l : list A), length (lastn n l) = Nat.min n (length l).
+Proof. intros. unfold lastn. rewrite skipn_length. lia. Qed.
+
+Lemma lastn_lastn_app : forall {A} n (a b : list A), lastn n (lastn n a ++ b) = lastn n (a ++ b).
+Proof.
+  intros A n a b. destruct (Nat.le_gt_cases n (length b)) as [H|H].
+  - rewrite !lastn_app_ge by exact H. reflexivity.
+  - destruct (Nat.le_gt_cases (length a) n) as [Ha|Ha].
+    + rewrite (lastn_all n a) by exact Ha. reflexivity.
+    + unfold lastn at 2. 
+      assert (E : a = firstn (length a - n) a ++ skipn (length a - n) a) by (symmetry; apply firstn_skipn).
+      rewrite E at 3. rewrite <- app_assoc.
+      set (s := skipn (length a - n) a).
+      assert (Hs : length s = n) by (unfold s; rewrite skipn_length; lia).
+      symmetry. apply lastn_app_ge. rewrite app_length. lia.
+Qed.
+
+Lemma repeat_split : forall (x : N) a b, repeat x (a + b) = repeat x a ++ repeat x b.
+Proof. intros. apply repeat_app. Qed.
+
+Lemma lastn_zeros_cap : forall W (a : list N) z c,
+  lastn W (a ++ repeat 0 z ++ [c]) = lastn W (a ++ repeat 0 (Nat.min z W) ++ [c]).
+Proof.
+  intros W a z c. destruct (Nat.le_gt_cases z W) as [H|H].
+  - rewrite Nat.min_l by exact H. reflexivity.
+  - rewrite Nat.min_r by lia.
+    rewrite (lastn_app_ge W a (repeat 0 z ++ [c])) by (rewrite app_length, repeat_length; cbn; lia).
+    rewrite (lastn_app_ge W a (repeat 0 W ++ [c])) by (rewrite app_length, repeat_length; cbn; lia).
+    replace z with ((z - W) + W)%nat at 1 by lia. rewrite repeat_split, <- app_assoc.
+    apply lastn_app_ge. rewrite app_length, repeat_length. cbn. lia.
+Qed.
+
+Lemma tz_snoc : forall l c, tz (l ++ [c]) = if c =? 0 then S (tz l) else O.
+Proof.
+  intros l c. unfold tz. rewrite rev_app_distr. cbn [rev app tz_rev].
+  destruct c; reflexivity.
+Qed.
+
+Lemma tz_le : forall l, (tz l <= length l)%nat.
+Proof.
+  intros l. unfold tz. rewrite <- (rev_length l). generalize (rev l) as r.
+  induction r as [|x t IH]; cbn; [lia|]. destruct x; cbn; lia.
+Qed.
+
+Lemma body_tz : forall l, l = body l ++ repeat 0 (tz l).
+Proof.
+  intros l. unfold body.
+  rewrite <- (firstn_skipn (length l - tz l) l) at 1. f_equal.
+  (* the last tz l elements are zeros *)
+  pose proof (tz_le l) as Hle.
+  assert (G : forall r : list N, skipn (length r - tz_rev r) (rev r) = repeat 0 (tz_rev r)).
+  { induction r as [|x t IH]; [reflexivity|].
+    cbn [tz_rev rev length]. destruct x as [|p].
+    - assert (Ht : (tz_rev t <= length t)%nat).
+      { clear. induction t as [|y u IHu]; cbn; [lia|]. destruct y; cbn; lia. }
+      replace (S (length t) - S (tz_rev t))%nat with (length t - tz_rev t)%nat by lia.
+      rewrite skipn_app, IH. rewrite rev_length.
+      replace (length t - tz_rev t - length t)%nat with O by lia. cbn [skipn].
+      change [0] with (repeat 0 1). rewrite <- repeat_app. f_equal. lia.
+    - replace (S (length t) - 0)%nat with (length (rev t ++ [N.pos p])) by (rewrite app_length, rev_length; cbn; lia).
+      rewrite skipn_all. reflexivity. }
+  unfold tz. specialize (G (rev l)). rewrite rev_involutive, rev_length in G. exact G.
+Qed.
+
+Lemma body_snoc : forall l c, body (l ++ [c]) = if c =? 0 then body l else l ++ [c].
+Proof.
+  intros l c. unfold body. rewrite tz_snoc, app_length. cbn [length].
+  destruct (c =? 0) eqn:E.
+  - replace (length l + 1 - S (tz l))%nat with (length l - tz l)%nat by lia.
+    rewrite firstn_app. pose proof (tz_le l).
+    replace (length l - tz l - length l)%nat with O by lia. cbn. apply app_nil_r.
+  - replace (length l + 1 - 0)%nat with (length (l ++ [c])) by (rewrite app_length; cbn; lia).
+    apply firstn_all.
+Qed.
+
+Definition xz_inv (W : nat) (l : list N) (st : xzend) : Prop :=
+  x_last st = lastn W (body l) /\ x_zeros st = tz l.
+
+Lemma xz_byte_inv : forall W l st c, xz_inv W l st -> xz_inv W (l ++ [c]) (xz_byte W st c).
+Proof.
+  intros W l st c [H1 H2]. unfold xz_inv, xz_byte. rewrite body_snoc, tz_snoc.
+  destruct (c =? 0) eqn:E; cbn [x_last x_zeros].
+  - split; [exact H1 | now rewrite H2].
+  - split; [|reflexivity].
+    rewrite H1, H2, lastn_lastn_app, <- lastn_zeros_cap.
+    assert (El : l ++ [c] = body l ++ repeat 0 (tz l) ++ [c]) by (rewrite app_assoc, <- body_tz; reflexivity).
+    rewrite El. reflexivity.
+Qed.
+
+Lemma xz_bytes_inv : forall W ch l st, xz_inv W l st -> xz_inv W (l ++ ch) (fold_left (xz_byte W) ch st).
+Proof.
+  intros W. induction ch as [|c t IH]; intros l st H; cbn [fold_left].
+  - now rewrite app_nil_r.
+  - replace (l ++ c :: t) with ((l ++ [c]) ++ t) by (rewrite <- app_assoc; reflexivity).
+    apply IH. apply xz_byte_inv. exact H.
+Qed.
+
+Lemma xz_chunks_inv : forall W chunks l st, xz_inv W l st -> xz_inv W (l ++ concat chunks) (fold_left (xz_chunk W) chunks st).
+Proof.
+  intros W. induction chunks as [|ch t IH]; intros l st H; cbn [fold_left concat].
+  - now rewrite app_nil_r.
+  - rewrite app_assoc. apply IH. apply xz_bytes_inv. exact H.
+Qed.
+
+(* for every read schedule the tracker holds the 12 bytes before the trailing zeros of everything read, and their number *)
+Lemma xz_track_spec : forall W chunks,
+  x_last (xz_track_w W chunks) = lastn W (body (concat chunks)) /\ x_zeros (xz_track_w W chunks) = tz (concat chunks).
+Proof.
+  intros W chunks. unfold xz_track_w.
+  apply (xz_chunks_inv W chunks [] (mkx [] 0)). split; reflexivity.
+Qed.
+
+Lemma xz_track_complete_w : forall W chunks, xz_complete_st (xz_track_w W chunks) = xz_complete_w W (concat chunks).
+Proof.
+  intros W chunks. destruct (xz_track_spec W chunks) as [H1 H2].
+  unfold xz_complete_st, xz_complete_w. now rewrite H1, H2.
+Qed.
+
+Lemma xz_track_complete : forall chunks, xz_complete_st (xz_track chunks) = xz_complete (concat chunks).
+Proof. intros. apply xz_track_complete_w. Qed.
+
+Lemma xz_guard_not_eof : forall raw lib, xz_complete raw = false -> xz_guard raw lib <> REof.
+Proof. intros raw [] H; cbn; rewrite ?H; discriminate. Qed.
+
+Lemma xz_guard_transparent : forall raw lib, xz_complete raw = true -> xz_guard raw lib = lib.
+Proof. intros raw [] H; cbn; rewrite ?H; reflexivity. Qed.
+
+
+(* ---------------------------------------------------------------- proofs *)
+Lemma firstn_nonnil : forall {A} k (l : list A), l <> [] -> firstn (S k) l <> [].
+Proof. intros A k [|x t] H; [congruence | cbn; discriminate]. Qed.
+
+Lemma fs_eq : forall k (l y : list N), l ++ y = firstn (S k) l ++ (skipn (S k) l ++ y).
+Proof. intros. now rewrite app_assoc, firstn_skipn. Qed.
+
+Lemma read_den : forall r k x e r', wf r -> read k r = (x, e, r') ->
+  wf r' /\
+  match e with
+  | None => x <> [] /\ (length x <= S k)%nat /\ den r = (x ++ fst (den r'), snd (den r'))
+  | Some f => (length x <= S k)%nat /\ den r = (x, f) /\ den r' = ([], f)
+  end.
+Proof.
+  induction r as [l | d sch f eager | a IHa b IHb | bs buf pend u IHu]; intros k x e r' Hwf H.
+  - (* RBytes *)
+    destruct l as [|y t]; cbn [read] in H; injection H as Hx He Hr; subst x e r'.
+    + cbn. repeat split; auto; lia.
+    + split; [exact I|]. split; [cbn; discriminate|]. split; [apply (firstn_le_length (S k) (y :: t))|].
+      cbn [den fst snd]. f_equal. symmetry. apply (firstn_skipn (S k) (y :: t)).
+  - (* RSrc *)
+    destruct d as [|y t]; cbn [read] in H.
+    + inversion H; subst. cbn. repeat split; auto; lia.
+    + set (m := Nat.min (S k) match sch with [] => S k | s :: _ => S s end) in *.
+      assert (Hm : (1 <= m <= S k)%nat) by (unfold m; destruct sch; lia).
+      assert (Hx : firstn m (y :: t) <> []) by (destruct m; [lia | cbn; discriminate]).
+      assert (Hl : (length (firstn m (y :: t)) <= S k)%nat) by (rewrite firstn_length; lia).
+      destruct (skipn m (y :: t)) as [|z w] eqn:Es.
+      * assert (Ed : firstn m (y :: t) = y :: t) by (rewrite <- (firstn_skipn m (y :: t)) at 2; rewrite Es, app_nil_r; reflexivity).
+        destruct eager; inversion H; subst; clear H; (split; [exact I|]); rewrite Ed in *.
+        -- cbn [den]. repeat split; auto.
+        -- cbn [den fst snd]. rewrite app_nil_r. repeat split; auto; discriminate.
+      * inversion H; subst; clear H. split; [exact I|]. split; [exact Hx|]. split; [exact Hl|].
+        cbn [den fst snd]. rewrite <- Es, firstn_skipn. reflexivity.
+  - (* RMulti *)
+    destruct Hwf as [Wa Wb]. cbn [read] in H.
+    destruct (read k a) as [[xa ea] a'] eqn:Ea.
+    destruct (IHa _ _ _ _ Wa Ea) as [Wa' Da].
+    destruct ea as [fa|].
+    + destruct Da as (La & Da & Da').
+      destruct fa.
+      * (* EOF of a *)
+        destruct xa as [|y t].
+        -- destruct (IHb _ _ _ _ Wb H) as [Wb' Db]. split; [exact Wb'|].
+           cbn [den]. rewrite Da. destruct (den b) as [yb gb] eqn:Eb. cbn [app]. exact Db.
+        -- injection H as Hx He Hr; subst x e r'. split; [exact Wb|]. split; [discriminate|]. split; [exact La|].
+           cbn [den]. rewrite Da. destruct (den b) as [yb gb]. reflexivity.
+      * injection H as Hx He Hr; subst x e r'. split; [split; assumption|]. split; [exact La|].
+        cbn [den]. rewrite Da, Da'. auto.
+      * injection H as Hx He Hr; subst x e r'. split; [split; assumption|]. split; [exact La|].
+        cbn [den]. rewrite Da, Da'. auto.
+      * injection H as Hx He Hr; subst x e r'. split; [split; assumption|]. split; [exact La|].
+        cbn [den]. rewrite Da, Da'. auto.
+    + destruct Da as (Nx & La & Da). injection H as Hx He Hr; subst x e r'. split; [split; assumption|].
+      split; [exact Nx|]. split; [exact La|].
+      cbn [den]. rewrite Da. destruct (den a') as [ya fa'] eqn:Ea'. cbn [fst snd].
+      destruct fa'; try reflexivity.
+      destruct (den b) as [yb gb]. cbn [fst snd]. now rewrite app_assoc.
+  - (* RBuf *)
+    destruct Hwf as [Wu Wp]. cbn [read] in H.
+    destruct buf as [|y t].
+    + destruct pend as [f|].
+      * injection H as Hx He Hr; subst x e r'. split; [split; [exact Wu | exact I]|].
+        cbn [den length]. rewrite Wp. split; [lia|]. auto.
+      * destruct (bs <=? S k)%nat.
+        -- destruct (read k u) as [[xu eu] u'] eqn:Eu. injection H as Hx He Hr; subst x e r'.
+           destruct (IHu _ _ _ _ Wu Eu) as [Wu' Du]. split; [split; [exact Wu' | exact I]|].
+           destruct eu as [f|].
+           ++ destruct Du as (Lu & Du & Du'). split; [exact Lu|]. cbn [den]. rewrite Du, Du'. auto.
+           ++ destruct Du as (Nx & Lu & Du). split; [exact Nx|]. split; [exact Lu|].
+              cbn [den]. rewrite Du. destruct (den u') as [yu gu]. reflexivity.
+        -- destruct (read (Nat.pred bs) u) as [[xu eu] u'] eqn:Eu.
+           destruct (IHu _ _ _ _ Wu Eu) as [Wu' Du].
+           destruct xu as [|z w].
+           ++ injection H as Hx He Hr; subst x e r'. split; [split; [exact Wu' | exact I]|].
+              destruct eu as [f|].
+              ** destruct Du as (_ & Du & Du'). cbn [den length]. rewrite Du, Du'. split; [lia|]. auto.
+              ** destruct Du as (Nx & _). congruence.
+           ++ injection H as Hx He Hr; subst x e r'.
+              assert (Lf : (length (firstn (S k) (z :: w)) <= S k)%nat) by apply firstn_le_length.
+              destruct eu as [f|].
+              ** destruct Du as (_ & Du & Du'). split; [split; [exact Wu' | exact Du']|].
+                 split; [cbn; discriminate|]. split; [exact Lf|].
+                 cbn [den fst snd]. rewrite Du. f_equal. symmetry. apply (firstn_skipn (S k) (z :: w)).
+              ** destruct Du as (_ & _ & Du). split; [split; [exact Wu' | exact I]|].
+                 split; [cbn; discriminate|]. split; [exact Lf|].
+                 cbn [den]. rewrite Du. destruct (den u') as [yu gu]. cbn [fst snd].
+                 rewrite (fs_eq k (z :: w) yu). reflexivity.
+    + injection H as Hx He Hr; subst x e r'. split; [split; assumption|]. split; [cbn; discriminate|].
+      split; [apply (firstn_le_length (S k) (y :: t))|].
+      cbn [den]. destruct pend as [f|].
+      * cbn [fst snd]. f_equal. symmetry. apply (firstn_skipn (S k) (y :: t)).
+      * destruct (den u) as [yu gu]. cbn [fst snd]. rewrite (fs_eq k (y :: t) yu). reflexivity.
+Qed.
+
+Lemma den_eta : forall r, den r = (fst (den r), snd (den r)).
+Proof. intros r. destruct (den r); reflexivity. Qed.
+
+Lemma readfull_s_spec : forall fuel k acc r a r' e, wf r -> (k <= fuel)%nat ->
+  readfull_s fuel k acc r = (a, r', e) ->
+  wf r' /\ exists x, a = acc ++ x /\
+    ((e = ENil /\ length x = k /\ den r = (x ++ fst (den r'), snd (den r')))
+     \/ (e <> ENil /\ (length x < k)%nat /\ fst (den r) = x /\ e = end_error (snd (den r)) (is_nil (acc ++ x)))).
+Proof.
+  induction fuel as [|fu IH]; intros k acc r a r' e Hwf Hk H.
+  - assert (k = O) by lia. subst k. cbn [readfull_s] in H. injection H as Ha Hr He; subst a r' e.
+    split; [exact Hwf|]. exists []. split; [now rewrite app_nil_r|]. left. split; [reflexivity|]. split; [reflexivity|].
+    cbn [app]. apply den_eta.
+  - destruct k as [|k'].
+    + cbn [readfull_s] in H. injection H as Ha Hr He; subst a r' e.
+      split; [exact Hwf|]. exists []. split; [now rewrite app_nil_r|]. left. split; [reflexivity|]. split; [reflexivity|].
+      cbn [app]. apply den_eta.
+    + cbn [readfull_s] in H. destruct (read k' r) as [[x0 e0] r0] eqn:Er.
+      destruct (read_den _ _ _ _ _ Hwf Er) as [W0 D0].
+      destruct e0 as [f|].
+      * destruct D0 as (L0 & D0 & D0').
+        destruct (S k' <=? length x0)%nat eqn:Ec.
+        -- apply Nat.leb_le in Ec. injection H as Ha Hr He; subst a r' e.
+           split; [exact W0|]. exists x0. split; [reflexivity|]. left. split; [reflexivity|]. split; [lia|].
+           rewrite D0, D0'. cbn [fst snd]. now rewrite app_nil_r.
+        -- apply Nat.leb_gt in Ec. injection H as Ha Hr He; subst a r' e.
+           split; [exact W0|]. exists x0. split; [reflexivity|]. right.
+           split; [apply end_error_not_nil|]. split; [exact Ec|]. rewrite D0. cbn [fst snd]. auto.
+      * destruct D0 as (N0 & L0 & D0).
+        assert (Lx : (1 <= length x0)%nat) by (destruct x0; [congruence | cbn; lia]).
+        apply IH in H; [|exact W0|lia].
+        destruct H as [W' (x1 & Ea & Hc)]. split; [exact W'|].
+        exists (x0 ++ x1). split; [rewrite Ea, app_assoc; reflexivity|].
+        destruct Hc as [(He & Hl & Hd) | (He & Hl & Hd & Hee)].
+        -- left. split; [exact He|]. split; [rewrite app_length; lia|].
+           rewrite D0, Hd. cbn [fst snd]. now rewrite app_assoc.
+        -- right. split; [exact He|]. split; [rewrite app_length; lia|].
+           rewrite D0. cbn [fst snd]. split; [now rewrite Hd|]. rewrite Hee, app_assoc. reflexivity.
+Qed.
+
+Lemma take_exact : forall (x y : list N), take (N.of_nat (length x)) (x ++ y) = (x, y, 0).
+Proof.
+  induction x as [|c t IH]; intros y.
+  - cbn [length app]. change (N.of_nat 0) with 0. destruct y; reflexivity.
+  - cbn [length app take]. rewrite Nat2N.inj_succ.
+    destruct (N.succ (N.of_nat (length t)) =? 0) eqn:E; [apply N.eqb_eq in E; lia|].
+    rewrite N.pred_succ, IH. reflexivity.
+Qed.
+
+Lemma take_short : forall (x : list N) k, (length x < k)%nat ->
+  exists m, take (N.of_nat k) x = (x, [], m) /\ m <> 0.
+Proof.
+  induction x as [|c t IH]; intros k Hk.
+  - exists (N.of_nat k). cbn. split; [reflexivity | lia].
+  - cbn [length] in Hk. destruct k as [|k']; [lia|].
+    destruct (IH k') as (m & E & Hm); [lia|].
+    exists m. cbn [take]. rewrite Nat2N.inj_succ.
+    destruct (N.succ (N.of_nat k') =? 0) eqn:E0; [apply N.eqb_eq in E0; lia|].
+    rewrite N.pred_succ, E. split; [reflexivity | exact Hm].
+Qed.
+
+(* io.ReadFull gives the same bytes and the same error for every read schedule, every buffering layer and every way the
+   final error is delivered (alone or together with the last bytes): it is the `readfull` of the abstract model on the
+   byte stream the reader stands for *)
+Lemma readfull_schedule_independent : forall k r a r' e, wf r ->
+  readfull_s k k [] r = (a, r', e) ->
+  wf r' /\ fst (fst (readfull (N.of_nat k) (den_stream r))) = a /\ snd (readfull (N.of_nat k) (den_stream r)) = e /\
+  (e = ENil -> snd (fst (readfull (N.of_nat k) (den_stream r))) = den_stream r').
+Proof.
+  intros k r a r' e Hwf H.
+  destruct (readfull_s_spec k k [] r a r' e Hwf (le_n k) H) as [W (x & Ea & Hc)].
+  cbn [app] in Ea. subst a. split; [exact W|].
+  unfold readfull, den_stream. cbn [rdata rfin_].
+  destruct Hc as [(He & Hl & Hd) | (He & Hl & Hd & Hee)].
+  - rewrite Hd. cbn [fst snd]. rewrite <- Hl, take_exact. cbn. subst e. repeat split; reflexivity.
+  - rewrite Hd. destruct (take_short x k Hl) as (m & Et & Hm). rewrite Et.
+    destruct (m =? 0) eqn:E0; [apply N.eqb_eq in E0; congruence|].
+    cbn [fst snd]. split; [reflexivity|]. split; [|congruence].
+    rewrite Hee. cbn [app]. destruct x; reflexivity.
+Qed.
+
+(* the sniffer at the level of readers is the sniffer of the abstract model *)
+Lemma sniff_s_refines : forall sn r, wf r ->
+  match sniff_s sn r, sniff (N.of_nat sn) (den_stream r) with
+  | Some (seen, r1), Some (a, s1) => seen = a ++ repeat 0 (sn - length a) /\ den_stream r1 = s1 /\ wf r1
+  | None, None => True
+  | _, _ => False
+  end.
+Proof.
+  intros sn r Hwf. unfold sniff_s, sniff.
+  destruct (readfull_s sn sn [] r) as [[a r'] e] eqn:Er.
+  destruct (readfull_schedule_independent sn r a r' e Hwf Er) as (W & Ha & He & Hr).
+  destruct (readfull (N.of_nat sn) (den_stream r)) as [[a2 rest] e2]. cbn [fst snd] in *. subst a2 e2.
+  destruct e; auto.
+  - specialize (Hr eq_refl). subst rest. split; [reflexivity|]. split; [|cbn; auto].
+    unfold den_stream. cbn [den fst snd rdata rfin_]. destruct (den r') as [y g]. reflexivity.
+  - split; [reflexivity|]. split; [reflexivity | exact I].
+Qed.
+
+(* no byte is lost or duplicated between sniffing and parsing: whatever the read schedule of the source, the reader handed to the
+   parser stands for exactly the stream of the source (same bytes, same end), and the detector has seen its first sn bytes *)
+Lemma sniffer_conserves_stream : forall sn r seen r1, wf r -> snd (den r) <> FUnexpected ->
+  sniff_s sn r = Some (seen, r1) ->
+  wf r1 /\ den r1 = den r /\ seen = firstn sn (fst (den r)) ++ repeat 0 (sn - length (firstn sn (fst (den r)))).
+Proof.
+  intros sn r seen r1 Hwf Hf H. unfold sniff_s in H.
+  destruct (readfull_s sn sn [] r) as [[a r'] e] eqn:Er.
+  destruct (readfull_s_spec sn sn [] r a r' e Hwf (le_n sn) Er) as [W (x & Ea & Hc)].
+  cbn [app] in Ea. subst a.
+  destruct Hc as [(He & Hl & Hd) | (He & Hl & Hd & Hee)].
+  - subst e. injection H as Hs Hr; subst seen r1. split; [cbn; auto|]. split.
+    + cbn [den]. rewrite Hd. destruct (den r') as [y g]. reflexivity.
+    + rewrite Hd. cbn [fst].
+      assert (E : firstn sn (x ++ fst (den r')) = x) by (rewrite <- Hl, firstn_app, Nat.sub_diag, firstn_all; cbn [firstn]; apply app_nil_r).
+      rewrite E. reflexivity.
+  - rewrite Hee in H. cbn [app] in H.
+    destruct (snd (den r)) eqn:Ef; try congruence.
+    + destruct x as [|c t]; cbn in H; [discriminate|].
+      injection H as Hs Hr; subst seen r1. split; [exact I|]. split.
+      * cbn [den]. rewrite (den_eta r), Hd, Ef. reflexivity.
+      * rewrite Hd. rewrite firstn_all2 by lia. reflexivity.
+    + destruct x; cbn in H; discriminate.
+    + destruct x; cbn in H; discriminate.
+Qed.
+
+Lemma drain_den : forall fuel ks r, wf r -> (length (fst (den r)) < fuel)%nat ->
+  drain fuel ks r = (fst (den r), Some (snd (den r))).
+Proof.
+  induction fuel as [|fu IH]; intros ks r Hwf Hl; [lia|].
+  cbn [drain]. destruct (read (hd O ks) r) as [[x e] r'] eqn:Er.
+  destruct (read_den _ _ _ _ _ Hwf Er) as [W D].
+  destruct e as [f|].
+  - destruct D as (_ & D & _). rewrite D. reflexivity.
+  - destruct D as (Nx & _ & D). rewrite D in *. cbn [fst snd] in *.
+    rewrite IH; [reflexivity | exact W |].
+    rewrite app_length in Hl. destruct x; [congruence | cbn in Hl; lia].
+Qed.
+
+(* end to end: source -> bufio (xopen.Buf) -> OBIMimeTypeGuesser -> bufio (readSequencesFromReader) -> any consumer *)
+Lemma sniff_pipeline_conserves : forall d sch f eager bs1 bs2 sn seen r1 ks fuel,
+  f <> FUnexpected ->
+  sniff_s sn (RBuf bs1 [] None (RSrc d sch f eager)) = Some (seen, r1) ->
+  (length d < fuel)%nat ->
+  drain fuel ks (RBuf bs2 [] None r1) = (d, Some f).
+Proof.
+  intros d sch f eager bs1 bs2 sn seen r1 ks fuel Hf H Hl.
+  assert (W0 : wf (RBuf bs1 [] None (RSrc d sch f eager))) by (cbn; auto).
+  destruct (sniffer_conserves_stream sn _ seen r1 W0 Hf H) as (W1 & D1 & _).
+  cbn [den app fst snd] in D1.
+  assert (Wb : wf (RBuf bs2 [] None r1)) by (cbn; auto).
+  rewrite (drain_den fuel ks _ Wb); cbn [den]; rewrite D1; cbn [fst snd app]; [reflexivity | exact Hl].
+Qed.
+
